@@ -146,10 +146,10 @@ class Grow:
                 t = rng.random()
                 if off > 0 and t < 0.4:           # left leg can be cupped with its left neighbour
                     a = self.adj(scan[off - 1])
-                    c = self.adj(a)
+                    c = list(scan[off - 1]) if rng.random() < 0.8 else self.adj(a)   # matched / twisted
                 elif off < len(scan) and t < 0.8:   # right leg can be cupped with its right neighbour
                     c = self.adj(scan[off])
-                    a = self.adj(c)
+                    a = list(scan[off]) if rng.random() < 0.8 else self.adj(c)
                 else:
                     a = self.ob()
                     c = self.adj(a)
@@ -157,10 +157,10 @@ class Grow:
                     c = adj_r(a) if a[1] < 2 else adj_l(a)
                 b = cap(a, c)
             else:
-                k = rng.randint(0, min(2, len(scan)))
+                k = min(rng.choice([0, 1, 1, 1, 2, 2]), len(scan))
                 off = rng.randint(0, len(scan) - k)
                 room = max(0, max_width - (len(scan) - k))
-                cod = [self.ob() for _ in range(rng.randint(0, min(2, room)))]
+                cod = [self.ob() for _ in range(min(rng.choice([0, 1, 1, 1, 2]), room))]
                 if k and rng.random() < 0.3:      # wire-preserving box
                     cod = list(scan[off:off + k])[:max(room, 0)] or cod
                 b = box(rng.randint(10, 13), scan[off:off + k], cod,
@@ -226,10 +226,10 @@ def build_cases(tier, seed):
     quick = tier == "quick"
     small = small_scope(3 if quick else 4, 4)
     rng.shuffle(small)
-    for d in small[:500 if quick else 12000]:
+    for d in small[:800 if quick else 4000]:
         cases.append(("small", d, rng.randint(0, 1)))
     max_boxes = 8 if quick else 12
-    for _ in range(1100 if quick else 40000):
+    for _ in range(2200 if quick else 8500):
         n = rng.randint(2, max_boxes)
         cases.append(("random", g.diagram(n, max_width=6 if quick else 7), rng.randint(0, 1)))
     for _ in range(len(cases) * 15 // 85):
@@ -257,13 +257,19 @@ def well_typed_request(d):
 
 
 class Functors:
-    """Two rigid functors into integer tensors: every atomic object goes to a small
-    dimension (the same for all its adjoints), every box to a random integer array,
-    cups and caps to identity-shaped tensors (that part is tensor.Functor's own)."""
+    """Two rigid functors into integer tensors, built with discopy.tensor.Functor:
+    every atomic object goes to a small dimension (the same for all its adjoints),
+    every box to a random integer array, cups and caps to whatever tensor.Functor
+    makes of them (identity-shaped tensors).  The images of the generators are
+    taken from tensor.Functor; a diagram is then contracted layer by layer with
+    numpy in exact int64 arithmetic (|entries| <= 2, <= 2 wires of dimension <= 3
+    contracted per box, <= 12 boxes: every intermediate value is below 18^12 <
+    2^63, so nothing can overflow or round)."""
 
     def __init__(self, seed):
         self.seed = seed
         self.dims = [{1: 2, 2: 3}, {1: 3, 2: 2}]
+        self.shared = {}     # generator images are a function of (functor, box): shared by all cases
 
     def make(self, which, d0):
         import numpy as np
@@ -285,18 +291,59 @@ class Functors:
                 size *= s
             ar[base_box] = np.array([brng.randint(-2, 2) for _ in range(size)],
                                     dtype=np.int64).reshape(shape or [1])
-        return tensor.Functor(ob, ar)
+        return Evaluator(tensor.Functor(ob, ar), dims, self.shared.setdefault(which, {}))
+
+
+class Evaluator:
+    def __init__(self, functor, dims, shared):
+        self.F, self.dims, self.images, self.shared = functor, dims, {}, shared
+
+    def shape(self, ty):
+        return [self.dims[int(o.name[1:])] for o in ty.objects]
+
+    def image(self, box):
+        """tensor.Functor's image of a generator (box, daggered box, cup, cap) as an
+        exact integer array of shape dims(dom) + dims(cod)."""
+        got = self.images.get(id(box))
+        if got is None:
+            key = (type(box).__name__, repr(box), bool(box.is_dagger))
+            a = self.shared.get(key)
+            if a is None:
+                a = exact_array(self.F(box))
+                assert a is not None, "tensor.Functor returned a non-integer array for %r" % (box,)
+                a = self.shared[key] = a.reshape(self.shape(box.dom) + self.shape(box.cod))
+            got = (box, a)
+            self.images[id(box)] = got       # keeps `box` alive, so the id stays valid
+        return got[1]
+
+    def __call__(self, d):
+        """The tensor of a diagram: identity on the domain, then each layer
+        contracted in turn (left wires and right wires untouched)."""
+        import numpy as np
+        dom = self.shape(d.dom)
+        n, size = len(dom), 1
+        for k in dom:
+            size *= k
+        array = np.eye(size, dtype=np.int64).reshape(dom + dom)
+        for box, off in zip(d.boxes, d.offsets):
+            t = self.image(box)
+            k_in, k_out = len(box.dom), len(box.cod)
+            array = np.tensordot(array, t, (list(range(n + off, n + off + k_in)), list(range(k_in))))
+            if k_out:
+                last = array.ndim
+                array = np.moveaxis(array, list(range(last - k_out, last)),
+                                    list(range(n + off, n + off + k_out)))
+        return array
 
 
 def exact_array(t):
-    """The tensor's array as exact integers (None if it cannot be trusted to be exact)."""
+    """A Tensor's array as exact integers (None if it is not integral)."""
     import numpy as np
     a = np.asarray(t.array)
-    if a.dtype.kind == "f":
-        if not np.all(np.isfinite(a)) or np.max(np.abs(a), initial=0) >= 2.0 ** 50 \
-                or not np.all(a == np.rint(a)):
+    if a.dtype.kind in "fc":
+        if not np.all(np.isfinite(a)) or not np.all(a == np.rint(a.real)):
             return None
-        a = a.astype(np.int64)
+        a = np.rint(a.real).astype(np.int64)
     elif a.dtype.kind not in "iu":
         return None
     return a
@@ -358,7 +405,7 @@ def f2_trigger(si, d0, steps):
     return bool(pairs) and not pairs[0][3]
 
 
-def check_steps(si, ci, functors, d0, steps, what):
+def check_steps(si, ci, functors, d0, steps, what, crosscheck=False):
     """Oracles on a list of diagrams claimed to be rewrites of d0.  Yields problems."""
     import numpy as np
     for k, s in enumerate(steps):
@@ -381,20 +428,21 @@ def check_steps(si, ci, functors, d0, steps, what):
         prev = s
     for which in (0, 1):
         F = functors.make(which, d0)
-        want = exact_array(F(d0))
-        if want is None:
-            yield None     # inexact: no verdict
-            return
+        want = F(d0)
+        if crosscheck:
+            # the layer-by-layer contraction agrees with tensor.Functor's own evaluation
+            own = exact_array(F.F(d0))
+            if own is None or own.size != want.size or not np.array_equal(own.reshape(want.shape), want):
+                yield "oracle self-check: tensor.Functor's evaluation of the input differs from the " \
+                      "layer-by-layer contraction of its generator images (functor %d)" % which
+                return
         seen = set()
         for k, s in enumerate(steps):
             key = (tuple(s.offsets), tuple(id(b) for b in s.boxes))
             if key in seen:
                 continue
             seen.add(key)
-            got = exact_array(F(s))
-            if got is None:
-                yield None
-                return
+            got = F(s)
             if got.shape != want.shape or not np.array_equal(got, want):
                 yield "%s #%d denotes a different tensor than the input under rigid functor %d" % (
                     what, k, which)
@@ -502,11 +550,8 @@ def run(tier, seed):
         if n_moves:
             rep.count("cases-with-obstructed-snake")
         # ---- oracles on every yielded step
-        for bad in check_steps(si, ci, functors, d0, rt.steps, "yielded step"):
-            if bad is None:
-                rep.count("skipped:inexact-tensor")
-            else:
-                rep.violation(bad, payload(rt_req, rt, mt))
+        for bad in check_steps(si, ci, functors, d0, rt.steps, "yielded step", crosscheck=idx % 5 == 0):
+            rep.violation(bad, payload(rt_req, rt, mt))
         # ---- how the trace ended
         st = rt.status
         rep.count("trace:" + {0: "done", si.CUT: "cut"}.get(st, ERRNAME.get(st, str(st))))
@@ -523,8 +568,7 @@ def run(tier, seed):
         if rn.obs[0] == 0:
             rep.count("normal_form:value")
             for bad in check_steps(si, ci, functors, d0, [rn.result], "normal form"):
-                if bad is not None and "rearrangement" not in bad and "removed" not in bad \
-                        and "number of boxes" not in bad:
+                if "rearrangement" not in bad and "removed" not in bad and "number of boxes" not in bad:
                     rep.violation(bad, payload(nf_req, rn, mn))
             left_over = [p for p in si.yankable_pairs(rn.result) if p[3]]
             if left_over:
